@@ -40,6 +40,8 @@ CHECKS = {
          "valid for any optimal dual (degeneracy-proof); V(d) from the real code with HiGHS; d = +-0.05", "bounded exhaustive scenario enumeration x all (node, step, sign) perturbations", "2 C18"),
  "C14": ("E1 portfolios x interval sizes {12h, d, 5h, 2d} x horizons (aligned, offset start, partial last step, autumn clock change, 3 days); split value = sum of per-interval R2 optima with original elapsed time, balance and per-interval plug-in on the original grid, equality with the unsplit optimum when nothing couples, <= unsplit with start=end storages",
          "R2 per interval (steps subset, original Dt); coupling classified from the scenario", "bounded exhaustive scenario enumeration against per-interval reference models", "2 C14"),
+ "C19": ("E3 full product of grids ((start, end) over 13 instants x 6 frequencies x 3 main units x 3 zones) x 21 restriction windows x coarse frequencies 2x/3x/4x x all ordered lists of <= 2 (thorough 3) intervals over 6 instants in every container form, explicit / implicit ends, naive / aware data, against the independent grid model R1 and the interval rule",
+         "R1 (datetime + zoneinfo); implicit ends compared only where every reading agrees; partial coarse tail dropped", "full product enumeration against an independent reference model", "2 C19"),
 }
 
 def main():
